@@ -62,7 +62,13 @@ func runLayouts(c *Ctx, names ...string) map[string]*layoutRun {
 				if fn == nil {
 					r.decErr = fmt.Errorf("unresolved anchor %s", u.dec)
 				} else {
-					r.dec, r.decErr = bits.New(c.Prog.SPkg).AnalyzeDecoder(fn)
+					// a unit that describes one alternative of the decoder (selected by an input bit) is
+					// evaluated on the inputs having that bit
+					var fixed map[string]bool
+					if u.decAlt != "" {
+						fixed = map[string]bool{strings.TrimPrefix(u.decAlt, "!"): !strings.HasPrefix(u.decAlt, "!")}
+					}
+					r.dec, r.decErr = bits.New(c.Prog.SPkg).AnalyzeDecoderAssuming(fn, fixed)
 				}
 			}
 		}()
@@ -149,18 +155,27 @@ func checkC16(c *Ctx) {
 	// not-received metric block: canonical zero fields
 	if lr := runs["CCFeedbackMetricBlock"]; lr != nil && lr.dec != nil {
 		ok := false
-		why := "no decoder alternative under !W:0.7"
-		for _, a := range lr.dec.Alts {
-			for _, cd := range a.Cond {
-				if cd.String() == "!W:0.7" {
-					ok = true
-					for _, f := range []string{"ECN", "ArrivalTimeOffset"} {
-						for _, b := range a.Fields[f] {
-							if b != bits.Zero {
-								ok = false
-								why = "field " + f + " is not zero for a not-received block"
-							}
-						}
+		why := "no successful decode of an input with the R bit clear"
+		// the decoder evaluated on the inputs whose R bit (octet 0 bit 7) is clear
+		var nr *bits.DecResult
+		if fn := p.Func(lr.u.dec); fn != nil {
+			if msg := guarded(func() {
+				nr, _ = bits.New(c.Prog.SPkg).AnalyzeDecoderAssuming(fn, map[string]bool{"W:0.7": false})
+			}); msg != "" {
+				why = "analysis panic: " + msg
+			}
+		}
+		if nr != nil && nr.NRet > 0 {
+			ok = true
+			for _, f := range []string{"ECN", "ArrivalTimeOffset"} {
+				if len(nr.Fields[f]) == 0 {
+					ok = false
+					why = "field " + f + " is not stored as an integer"
+				}
+				for _, b := range nr.Fields[f] {
+					if b != bits.Zero {
+						ok = false
+						why = "field " + f + " is not zero for a not-received block"
 					}
 				}
 			}
